@@ -19,6 +19,7 @@ from harness.common import sexp
 from harness.common.ctx import Timeout, time_limit
 
 EXE = "c13_model"
+PROPS = ["Holpy.C13.Props", "Holpy.C13.Props2", "Holpy.C13.Props3", "Holpy.C13.Props4"]
 
 THEORIES_QUICK = ["logic_base", "logic", "function", "list", "hoare", "nat", "set"]
 THEORIES_THOROUGH = ["logic_base", "logic", "function", "list", "hoare", "nat", "set", "expr", "topology"]
@@ -96,6 +97,18 @@ def args_str(it):
         return it.print_str_args() if it.args else ""
     except Exception as e:  # noqa
         return "<unprintable %s>" % type(e).__name__
+
+
+def cell_text(obj):
+    try:
+        return repr(obj)
+    except Exception as e:  # noqa
+        return "<unprintable %s>" % type(e).__name__
+
+
+def arg_cells(state):
+    """The argument objects reachable from a state, by identity, with their content."""
+    return {id(it.args): (it.args, cell_text(it.args)) for _, it in walk(state) if it.args is not None}
 
 
 def snapshot(state):
@@ -232,6 +245,16 @@ def check_invariants(goal, state, goal_th, do_export=True):
         goal.set_context()
         return bad
     goal.set_context()
+    enc = IMPORT_ENCODER
+    if enc is not None and len(enc.import_records) < enc.limit // 4:
+        # stream `import`: the structural model of export_proof / parse_proof against the real pair
+        try:
+            lines_ = [[list(it.id.id), enc.rcode(it.rule), [list(p.id) for p in it.prevs], enc.th(it.th)] for _, it in walk(state)]
+            real = ["ok", enc.state(st2)]
+            enc.import_records.append(("import", ["import", lines_], real))
+            enc.import_records.append(("roundtrip", ["roundtrip", enc.state(state)], real))
+        except Exception:  # noqa
+            enc.skipped += 1
     l1, l2 = snapshot(state)[1], snapshot(st2)[1]
     if len(l1) != len(l2):
         bad.append(("import-differs", "%d lines exported, %d lines imported" % (len(l1), len(l2))))
@@ -642,6 +665,8 @@ def perturb(step, state, rng):
     return s
 
 
+IMPORT_ENCODER = None     # the Recorder of the run (stream `import`)
+METHOD_MODELLED = {"cut", "forall_elim", "apply_fact", "new_var", "cases"}
 SEARCH_HOOK = None        # C14 logs the searches the step generator makes (replay of history-dependent failures)
 CURRENT_RUNNER = None
 
@@ -727,6 +752,17 @@ class Runner:
         self.goal.set_context()
         before = snapshot(self.state)
         target = copy.copy(self.state) if on_copy else self.state
+        cells = arg_cells(self.state) if on_copy else None     # stream `alias`
+        mrec = None                                            # stream `method:*` (method-level model of C14)
+        if self.recorder is not None and step.get("method_name") in METHOD_MODELLED \
+                and len(self.recorder.method_records) < self.recorder.limit:
+            try:
+                mrec = (self.recorder.state(target), len(self.recorder.records))
+            except Exception:  # noqa
+                mrec = None
+        if on_copy:
+            shared = sum(1 for _, it in walk(target) if it.args is not None and id(it.args) in cells)
+            ctx.count("alias:args-objects-shared-with-the-copy", shared)
         entry = {"step": clean_step(step), "on_copy": on_copy, "adopt": adopt, "source": source}
         outcome, err = "ok", None
         self.cause = step_cause(self.state, step)
@@ -756,6 +792,22 @@ class Runner:
                 self.dead = True
             return outcome
         self.trail.append(entry)
+        if mrec is not None:
+            try:
+                self.recorder.method_record(name, step, mrec[0], mrec[1], target)
+            except Exception:  # noqa
+                self.recorder.skipped += 1
+        if cells is not None:
+            # heap effect of the operation as the aliasing model states it: fresh argument objects
+            # only, no write into an object that existed before (Holpy/C13/AliasModel.lean)
+            changed = [k for k, (obj, txt) in cells.items() if cell_text(obj) != txt]
+            moved = [pos for pos, it in walk(self.state) if it.args is not None and id(it.args) not in cells]
+            if changed or moved:
+                ctx.count("alias:in-place-update:" + name)
+                ctx.broken("correspondence:c13:alias", "%s on a copy wrote into %d argument object(s) that existed before "
+                           "(the model has every operation allocate fresh objects only)" % (name, len(changed) + len(moved)))
+            else:
+                ctx.count("alias:alloc-only")
         # --- the step completed: the property must hold for `target`
         ok = self.judge(target, name, step)
         if on_copy and snapshot(self.state) != before:
@@ -763,6 +815,9 @@ class Runner:
             self.dead = True
             ok = False
         if ok:
+            keep = getattr(ctx, "adv_states", None)
+            if keep is not None and len(keep) < 60 and self.rng.random() < 0.08:
+                keep.append(copy.copy(target))      # real states for the adversarial primitive stream
             nontriv = len(self.trail) >= 2
             ctx.case((self.goal.ident(), tuple(json.dumps(t["step"], sort_keys=True) + str(t["on_copy"]) for t in self.trail)), nontrivial=nontriv)
         if on_copy:
@@ -1106,6 +1161,8 @@ class Recorder:
         self.export_capture = None
         self.skipped = 0
         self.active = True           # C14 records only the applications of suggestions
+        self.method_records = []     # (label, model op, expected answer)
+        self.import_records = []
         self.export_shape_mismatch = []
 
     # ---- encoding
@@ -1235,6 +1292,30 @@ class Recorder:
         except Exception:  # noqa
             pass
 
+    def method_record(self, name, step, before, nrec, target):
+        """Method-level model (Holpy/C14/Model.lean): cut = add_line_before + set_line(sorry);
+        forward steps = add_line_before + set_line; cases = apply_tactic with the fixed shape."""
+        gid = [int(x) for x in str(step["goal_id"]).split(".")]
+        after = self.state(target)
+        if name == "cases":
+            new = [r for r in self.records[nrec:] if r[0] == "apply_tactic"]
+            if len(new) != 1:
+                return                       # the call was not sampled by the recorder
+            cap = new[0][1][3]
+            if len(cap) != 3 or cap[0][0][1] != 1 or cap[1][0][1] != 1 or cap[2][0][2] != [cap[0][0][0], cap[1][0][0]]:
+                self.export_shape_mismatch.append((gid, "cases: not two gaps + conclusion"))
+                return
+            op = ["cases", before, gid, cap[2][0][1], cap[0][0][3], cap[1][0][3], cap[2][0][3], cap[0][1], cap[1][1]]
+            self.method_records.append(("method:cases", op, ["ok", after]))
+            return
+        it = target.get_proof_item(tuple(gid))
+        if name == "cut":
+            op = ["cut", before, gid, self.th(it.th)]
+            self.method_records.append(("method:cut", op, ["ok", after]))
+        else:
+            op = ["forward", before, gid, self.rcode(it.rule), [list(p.id) for p in it.prevs], self.th(it.th)]
+            self.method_records.append(("method:forward:" + name, op, ["ok", after]))
+
     @staticmethod
     def idl(x):
         from kernel.proof import ItemID
@@ -1346,6 +1427,67 @@ def mutate_structure(items, rng):
     return items
 
 
+def adversarial_primitives(ctx, recorder):
+    """Direct calls of the structural primitives on copies of real states with ids the methods
+    never pass: cited lines removed, lines that do not exist, citations that are not admissible.
+    The model has to agree with the real ProofState outside the preconditions of the theorems too
+    (this is what ties the counterexample theorems about `remove_line` to the code)."""
+    from kernel.proof import ItemID
+    rng = ctx.rng("adversarial-primitives")
+    states = getattr(ctx, "adv_states", None) or []
+    orig = recorder.orig
+    if not all(k in orig for k in ("add_line_before", "remove_line", "set_line", "replace_id")):
+        return []
+    out = []
+    for st in states:
+        lines = walk(st)
+        if not lines:
+            continue
+        for _ in range(ctx.scale(4, 12)):
+            pos, it = rng.choice(lines)
+            r = rng.random()
+            if r < 0.15:
+                pos = pos[:-1] + (pos[-1] + rng.randint(1, 3),)         # possibly beyond the end
+            elif r < 0.2:
+                pos = pos + (rng.randint(0, 2),)                        # inside a line without subproof?
+            kind = rng.choice(["remove", "remove", "add", "set", "replace"])
+            tgt = copy.copy(st)
+            try:
+                before = recorder.state(tgt)
+            except Exception:  # noqa
+                continue
+            try:
+                if kind == "remove":
+                    op = ["remove", before, list(pos)]
+                    orig["remove_line"](tgt, ItemID(pos))
+                elif kind == "add":
+                    n = rng.randint(0, 3)
+                    op = ["add", before, list(pos), n]
+                    orig["add_line_before"](tgt, ItemID(pos), n)
+                elif kind == "set":
+                    src = rng.choice(lines)[1]
+                    if src.th is None:
+                        continue
+                    prevs = [rng.choice(lines)[0] for _ in range(rng.randint(0, 2))]
+                    op = ["set", before, list(pos), recorder.rcode("sorry"), [list(p) for p in prevs], recorder.th(src.th)]
+                    orig["set_line"](tgt, ItemID(pos), "sorry", prevs=[ItemID(p) for p in prevs], th=src.th)
+                else:
+                    other = rng.choice(lines)[0]
+                    op = ["replace", before, list(pos), list(other)]
+                    orig["replace_id"](tgt, ItemID(pos), ItemID(other))
+                res = ["ok", recorder.state(tgt)]
+            except Exception as e:  # noqa
+                # structural failures are the model's error answers; a refusal by the re-check that
+                # every primitive ends with (e.g. id != position since fix C02) is not modelled
+                if type(e).__name__ in ("ProofStateException", "IndexError", "AttributeError"):
+                    res = "error"
+                else:
+                    ctx.count("adversarial:refused-by-recheck:" + type(e).__name__)
+                    continue
+            out.append((op, res))
+    return out
+
+
 def correspondence(ctx, recorder, exe=None, id_cases=None):
     from kernel.proof import ItemID
     exe = exe or EXE
@@ -1398,6 +1540,18 @@ def correspondence(ctx, recorder, exe=None, id_cases=None):
             lines.append(sexp.dumps(["wf", m]))
             expect.append(norm(py_wf(m)))
             label.append("wf:mutated")
+    for lab, op, res in getattr(recorder, "method_records", []) + getattr(recorder, "import_records", []):
+        lines.append(sexp.dumps(op))
+        expect.append(norm(res))
+        label.append(lab)
+    for op, res in getattr(recorder, "adversarial", []):
+        lines.append(sexp.dumps(op))
+        expect.append(norm(res))
+        label.append("adversarial:" + op[0])
+        if res != "error" and wf_rng.random() < 0.5:
+            lines.append(sexp.dumps(["wf", res[1]]))
+            expect.append(norm(py_wf(res[1])))
+            label.append("wf:adversarial")
     out = ctx.lean_driver(exe, lines) if lines else []
     if out is None or len(out) != len(lines):
         ctx.broken("correspondence:%s:driver" % ctx.prop.lower(), "model driver unavailable or answered %s lines for %d" % (None if out is None else len(out), len(lines)))
@@ -1409,6 +1563,8 @@ def correspondence(ctx, recorder, exe=None, id_cases=None):
             g = norm(sexp.loads(got))
         except Exception:  # noqa
             g = got
+        if exp == "error" and isinstance(g, list) and g and g[0] == "error":
+            g = "error"
         if g != exp:
             ndis += 1
             if ndis <= 3:
@@ -1434,9 +1590,9 @@ def run(ctx):
         faulthandler.register(signal.SIGUSR1)
     except Exception:  # noqa
         pass
-    proofs_ok = ctx.lean_props(["Holpy.C13.Props"], exes=[EXE])
+    proofs_ok = ctx.lean_props(PROPS, exes=[EXE])
     if ctx.tier == "thorough" and proofs_ok:
-        ctx.lean_check_modules(["Holpy.C13.Props"])
+        ctx.lean_check_modules(PROPS)
     ctx.findings = ctx.findings + [dict(f, property="C13") for f in FINDINGS if not any(g["key"] == f["key"] for g in ctx.findings)]
     ctx.coverage["trusted_base"] += [
         "property oracle harness/props/c13.py: invariants evaluated on the real ProofState objects with holpy's own checker "
@@ -1449,10 +1605,17 @@ def run(ctx):
         "copy isolation is checked on the real objects after every step; it is not a theorem (a pure model cannot exhibit sharing)"]
     recorder = Recorder(ctx.scale(3000, 40000), every=ctx.scale(5, 2))
     recorder.install(ctx)
+    global IMPORT_ENCODER
+    IMPORT_ENCODER = recorder
+    ctx.adv_states = []
     try:
         oracle_streams(ctx, recorder)
     finally:
         recorder.uninstall()
+    try:
+        recorder.adversarial = adversarial_primitives(ctx, recorder)
+    except Exception as e:  # noqa
+        ctx.broken("correspondence:c13:adversarial", "could not run the adversarial primitive calls: %r" % e)
     correspondence(ctx, recorder)
 
 
@@ -1535,20 +1698,26 @@ MANIFEST = {
             "(corpus of past failures first; recorded library steps, search_method suggestions, random perturbation incl. the same method "
             "again in the same scope; directed scenarios; live state or copy): contiguous numbering, citations earlier+visible, last line = "
             "stated goal, full re-check with exactly the open gaps, acceptance with no_gaps when none is left, export->import identity, copy "
-            "isolation (lines, variables and report). Lean: executable model of the proof-tree structure and of add_line_before / remove_line "
-            "/ set_line / replace_id / find_goal / apply_tactic, tied to the code by replaying every recorded primitive call and the ItemID "
-            "arithmetic on the model. Proved (edit_preserves_wf, edits_preserve_wf): each of the five operations, hence every sequence, "
-            "preserves well-formedness = ids equal positions at every depth + every citation satisfies can_depend_on, under the precondition "
-            "the code establishes (insert before an existing line; set_line with admissible citations; remove a line no line of its proof "
-            "cites; replace_id by a line visible from the old one; apply_tactic with exported lines that have no subproofs and admissible "
-            "citations - checked on every captured export); wf_citation_resolves: in a well-formed state every cited line exists. "
-            "goal_preserved_partial only says that add_line_before/remove_line/set_line calls which do not target the last top-level line "
-            "leave its rule and sequent alone (hypothesis safeRun); that replace_id / apply_tactic keep the last line, and that the methods "
-            "meet safeRun, is NOT proved - it is observed by the oracle (last line checked after every step) and the correspondence stream. "
-            "Export/import is oracle-only.",
+            "isolation (lines, variables, report; identity and content of every argument object). Lean: executable model of the proof tree and "
+            "of add_line_before / remove_line / set_line / replace_id / find_goal / apply_tactic, of export_proof / parse_proof (structure "
+            "only) and of the sharing between a state and its copy; tied to the code by replaying every recorded primitive call, adversarial "
+            "primitive calls outside the preconditions, every export/import pair, the ItemID arithmetic and the heap effect of every "
+            "operation applied to a copy. PROVED: edit_preserves_wf / edits_preserve_wf (all five operations keep ids = positions at every "
+            "depth and citations within can_depend_on, under the preconditions the code establishes); wf_citation_resolves; goal_preserved "
+            "(all five operations keep rule and sequent of the last top-level line under safeRunAll), apply_tactic_keeps_statement / "
+            "apply_tactic_keeps_goal_line / tactics_preserve_goal (apply_tactic changes no top-level line other than its goal; after any "
+            "sequence of tactic applications the last line still states the original goal; hypotheses: exported lines numbered id, id+1, .. "
+            "- checked on every captured export - and the last line is not a gap); import_numbered (whatever parse_proof accepts has ids = "
+            "positions); copy_isolated (operations that only attach fresh argument objects - all operations as coded - leave every earlier "
+            "state unchanged) with in_place_update_not_isolated_counterexample; remove_line_cited_*_counterexample (remove_line does not "
+            "check that the line is uncited: its callers replace_id [proved] and revert_intro [asserted in the code, not modelled] do). "
+            "PARTIAL / NOT proved: export_import_id_partial covers proofs without subproofs only (nested: stream `import`); that the new "
+            "conclusion line states a sequent proving the goal's is the hypothesis pt.th.can_prove(goal) asserted by fix C13-9, not a "
+            "theorem; printed arguments/sequents are opaque (C07); copy isolation is proved for the aliasing model, the claim that the "
+            "code only allocates is the `alias` stream.",
     "note": "Trusted: Lean kernel (propext/Classical.choice/Quot.sound), the harness (generators, invariants, recorder), holpy's own checker "
             "theory.check_proof as the judge of 'checkable', term printing/parsing for the export comparison, z3 checks switched off "
-            "(z3wrapper.check_z3=False). Tactic bodies and Python aliasing are not modelled; copy isolation is checked on real objects only.",
+            "(z3wrapper.check_z3=False). Tactic bodies are not modelled (a tactic is the list of its exported lines).",
     "design_ref": "DESIGN.md 4/C13",
 }
 FINDINGS = [
